@@ -10,6 +10,7 @@ export GOFLAGS=-mod=mod GOPROXY=off GOSUMDB=off GOTOOLCHAIN=local GONOSUMDB='*' 
 export CGO_ENABLED="${CGO_ENABLED:-1}"
 case "$VERIF_SEED" in (*[!0-9]*|'') VERIF_SEED=1;; esac
 
+export VERIF_CWD="$PWD"
 cd "$HERE/harness" || exit 2
 
 # alternative repository location (sensitivity experiments only): private go.mod copy
